@@ -120,7 +120,7 @@ def edge_conditions(prov, fn, edge):
     t = fn.blocks[bid]["term"]
     out = []
     if "discr_of" in t:
-        o = prov.place(fn, t["discr_of"])
+        o = prov.place(fn, t["discr_of"], (bid, "t"))
         if idx == "o":
             listed = [n for v, b, n in t["targets"]]
             out.append(("variant_not_in", o, tuple(listed)))
@@ -133,7 +133,7 @@ def edge_conditions(prov, fn, edge):
             out.append(("variant_in", o, (t["targets"][idx][2],)))
         return out
     d = t["discr"]
-    o = prov.operand(fn, d)
+    o = prov.operand(fn, d, (bid, "t"))
     if t.get("discr_ty") == "bool":
         if idx == "o":
             pol = True
@@ -340,7 +340,30 @@ def dominating_conditions(prov, fn, node):
         if isinstance(d, tuple) and d[0] == "e":
             for c in edge_conditions(prov, fn, d):
                 out.append((d, c))
+                out.extend((d, c2) for c2 in _equivalent_conditions(c))
     return out
+
+
+_VARIANT_PRED = {"Some": ("is_some", True), "None": ("is_some", False), "Ok": ("is_ok", True), "Err": ("is_ok", False)}
+
+
+def _equivalent_conditions(c):
+    """`x.is_some()` and `if let Some(_) = x` (likewise is_none / is_ok / is_err) establish the same fact: each is also
+    reported in the other's form, so a rule may ask for either"""
+    out = []
+    if c[0] == "bool" and c[1][0] in ("is_some", "is_ok") and len(c[1][1]) == 1:
+        pred, args, pol = c[1]
+        v = {("is_some", True): "Some", ("is_some", False): "None", ("is_ok", True): "Ok", ("is_ok", False): "Err"}[(pred, bool(pol))]
+        out.append(("variant_in", args[0], (v,), "~"))
+    elif c[0] == "variant_in" and len(c[2]) == 1 and c[2][0] in _VARIANT_PRED:
+        pred, pol = _VARIANT_PRED[c[2][0]]
+        out.append(("bool", (pred, (deep_peel(c[1]),), pol), "~"))
+    return out
+
+
+def is_derived(c):
+    """condition added by _equivalent_conditions (the same fact in the other spelling): not to be counted twice"""
+    return c[-1] == "~"
 
 
 def bool_temp_conditions(prov, fn, node):
